@@ -15,7 +15,7 @@ use crate::sim::stream::{Faults, StreamOpts};
 pub const SPEC: PropSpec = PropSpec {
     id: "C19",
     level: "exploration",
-    rule: "(a) parser differential: generated file contents (0-8 lines: blank, tabs, surrounding / non-breaking spaces, CRLF, IPv4, ::1, garbage, trailing junk, out-of-range octets, leading zeros, duplicates, missing final newline) through the production analyze_ip_reload_text / analyze_ip_reload (real temp files incl. missing ones) against a reference (split on LF, strip one CR, trim, skip blank, IpAddr::from_str): refuse iff no parsable line, else exactly the parsable lines in order. (b) E1 runs: session established through the real handshake on 1-4 uplinks drawn from 127.0.0.10..30, then 2-10 reloads mid-stream (datagrams queued, in flight and tracked): each accepted list is applied by the production apply_connection_changes at the tail of a real housekeeping arm; the checker compares before/after: link list = survivors in old order ++ each new address once; survivors keep conn_id, socket (Arc identity) and full state fingerprint; removed links lose their I/O handle and every tracker record of a sequence they carried (survivors' records still resolve); new links are registering with a socket bound to their address; previous routing choice forgotten iff a link was removed. The run continues under the C01 delivery oracle so a dangling index or mis-keyed map shows as mis-routing. Non-trivial = applied reload that removed or added a link; distinct = distinct (old size, survivors, removed, added, selected-link-removed, list length) tuples. E6 live lane (12 sessions quick / 96 thorough): the PRODUCTION run_sender_with_config (real tokio::select! loop, reader tasks with recvmmsg, instant-ACK forwarder, timers, SIGHUP stream, control socket) runs in a real process (vlive) on loopback sockets and the real clock; the harness plays the SRT client, the SRTLA receiver model, path faults, receiver restarts, SIGHUP reloads and hostile return traffic, observes every datagram on both sides with kernel receive timestamps and uses the sender's own stats pushes (one per housekeeping tick) as its logical clock. Live oracles for this property (real SIGHUP on a real file): 4 sender ticks after the signal the uplinks reported by the sender equal the parsable lines (as a set, each once) or - for an empty / garbage-only / missing file - the previous list; surviving uplinks never re-open their socket; a removed uplink's address falls silent; an added address registers within 14 ticks; no datagram ever comes from an unlisted address.",
+    rule: "(a) parser differential: generated file contents (0-8 lines: blank, tabs, surrounding / non-breaking spaces, CRLF, IPv4, ::1, garbage, trailing junk, out-of-range octets, leading zeros, duplicates, missing final newline) through the production analyze_ip_reload_text / analyze_ip_reload (real temp files incl. missing ones) against a reference (split on LF, strip one CR, trim, skip blank, IpAddr::from_str): refuse iff no parsable line, else exactly the parsable lines in order. (b) E1 runs: session established through the real handshake on 1-4 uplinks drawn from 127.0.0.10..30, then 2-10 reloads mid-stream (datagrams queued, in flight and tracked): each accepted list is applied by the production apply_connection_changes at the tail of a real housekeeping arm; the checker compares before/after: link list = survivors in old order ++ each new address once; survivors keep conn_id, socket (Arc identity) and full state fingerprint; removed links lose their I/O handle and every tracker record of a sequence they carried (survivors' records still resolve); new links are registering with a socket bound to their address; previous routing choice forgotten iff a link was removed. The run continues under the C01 delivery oracle so a dangling index or mis-keyed map shows as mis-routing. Non-trivial = applied reload that removed or added a link; distinct = distinct (old size, survivors, removed, added, selected-link-removed, list length) tuples. E6 live lane (12 sessions quick / 96 thorough): the PRODUCTION run_sender_with_config (real tokio::select! loop, reader tasks with recvmmsg, instant-ACK forwarder, timers, SIGHUP stream, control socket) runs in a real process (vlive) on loopback sockets and the real clock; the harness plays the SRT client, the SRTLA receiver model, path faults, receiver restarts, SIGHUP reloads and hostile return traffic, observes every datagram on both sides with kernel receive timestamps and uses the sender's own stats pushes (one per housekeeping tick) as its logical clock. Live oracles for this property (real SIGHUP on a real file): 4 sender ticks after the signal the uplinks reported by the sender equal the parsable lines (as a set, each once) or - for an empty / garbage-only / missing file - the previous list; surviving uplinks never re-open their socket; a removed uplink's address falls silent; an added address registers within 14 ticks; no datagram ever comes from an unlisted address. Every session that was not refused does a second reload, half of the time back to exactly the start-up file, checked the same way.",
     assumptions: &[
         "'parsable address' is std's IpAddr::from_str on the trimmed line; line splitting and trimming are re-implemented",
         "IPv6 loopback entries are parsed and applied but cannot reach the IPv4 receiver socket of the harness, so they never produce a link here (create_connections_from_ips logs the failure)",
@@ -36,7 +36,9 @@ pub const SPEC: PropSpec = PropSpec {
         ("reload.tracker_records_of_removed_checked", 500, 15_000),
         ("reload.tracker_records_of_survivors_checked", 5_000, 150_000),
         ("reload.new_links_checked", 100, 3_000),
-        ("live.C19.reloads_checked", 8, 64),
+        ("live.C19.reloads_checked", 12, 96),
+        ("live.C19.second_reloads_checked", 4, 32),
+        ("live.C19.back_to_startup_reloads_checked", 1, 8),
     ],
 };
 
